@@ -66,7 +66,7 @@ const HOSTNAMES: [&str; 8] = [
 const ENTITIES: [&str; 3] = ["example.*", "sub.example.*", "b.example.*"];
 
 /// Location lists with two items (each chosen for one interaction of positive / negated / entity).
-const PAIRS: [&str; 16] = [
+const PAIRS: [&str; 18] = [
     "example.com,example.org",          // two unrelated positives
     "example.com,~sub.example.com",     // host minus one subdomain
     "sub.example.com,~example.com",     // positive below a negated parent: applies nowhere
@@ -77,6 +77,8 @@ const PAIRS: [&str; 16] = [
     "example.*,~sub.example.*",         // entity minus entity
     "a.b.example.com,b.example.*",      // hostname and entity, both positive
     "bücher.de,example.com",            // IDN next to ASCII
+    "Example.com,~SUB.example.com",     // upper-case letters in a location (ASCII and IDN)
+    "BÜCHER.de,Example.*",
     "bücher.de,münchen.de",             // two IDN locations (each is converted to punycode on its own)
     "example.com,~bücher.de,münchen.de,straße.*", // three, of every kind
     "example.org,example.*",            // hostname and entity, both positive; most pages covered by the entity only
@@ -158,8 +160,9 @@ struct Rule {
 }
 
 fn to_ascii(name: &str) -> Option<String> {
+    // host names are case-insensitive; a page's host is reported in lower case
     if name.is_ascii() {
-        Some(name.to_string())
+        Some(name.to_ascii_lowercase())
     } else {
         idna::domain_to_ascii(name).ok().filter(|s| !s.is_empty())
     }
